@@ -184,7 +184,7 @@ def handleC02 (tf pf hf opsf : String) : String :=
       match cloneDefault E base ((nat? (look T "D2")).getD noneId) {} with
       | (.ok t, c) => some (t, c)
       | (.error _, _) => none
-    else if shape == "t" then some ({ base with flags := clearCmp base.flags }, {})
+    else if shape == "t" then some (base, {})     -- the same TraitType instance bound to a second name
     else some (base, {})
   match start, (fields opsf ";").mapM parseOp with
   | some (t, c), some ops =>
